@@ -270,7 +270,7 @@ func oracleC10(in map[string]any, main implStatic, variants []implStatic) ([]Vio
 	// mixture: the rows that are blank take the default, the others their value – compare with the
 	// all-explicit parse row by row through the model comparison; here: one-sided arrival/departure
 	stt := truthOf(in, "stop_times.txt")
-	if stt != nil && gb(in, "oneSided") {
+	if stt != nil {
 		for _, t := range s.Trips {
 			for _, st := range t.StopTimes {
 				for _, row := range stt.rows {
@@ -281,6 +281,17 @@ func oracleC10(in map[string]any, main implStatic, variants []implStatic) ([]Vio
 							tags["arrival-only"] = true
 							if st.ArrivalTime != time.Duration(a)*time.Second || st.DepartureTime != st.ArrivalTime {
 								l.add("c10-fill-in", "trip %q seq %d: only arrival %q is given, result has arrival %v departure %v", t.ID, st.StopSequence, stt.get(row, "arrival_time"), st.ArrivalTime, st.DepartureTime)
+							}
+						}
+						if okA && okD {
+							// "nothing else": when both times are given neither is touched - also when one of them is midnight,
+							// whose duration is the zero a missing time would have
+							tags["both-times"] = true
+							if a == 0 || d == 0 {
+								tags["both-times-one-midnight"] = true
+							}
+							if st.ArrivalTime != time.Duration(a)*time.Second || st.DepartureTime != time.Duration(d)*time.Second {
+								l.add("c10-fill-in", "trip %q seq %d: arrival %q and departure %q are both given, result has arrival %v departure %v", t.ID, st.StopSequence, stt.get(row, "arrival_time"), stt.get(row, "departure_time"), st.ArrivalTime, st.DepartureTime)
 							}
 						}
 						if okD && !okA {
